@@ -20,11 +20,17 @@ L3_ASSUME = L1_ASSUME + [
     "generated receivers are compiled by rustc against /repo's working tree; receivers cover the generator's option grammar, not all Rust programs",
 ]
 GEN_MAIN = {"name": "l3main", "kind": "main", "n": {"quick": 300, "thorough": 300}}
+GEN_MAGIC = {"name": "l3magic", "kind": "magic", "n": {"quick": 0, "thorough": 0}}
+GEN_SUGG = {"name": "l3sugg", "kind": "sugg", "n": {"quick": 100, "thorough": 100}}
+GEN_SUGG_OFF = {"name": "l3sugg_off", "kind": "sugg", "n": {"quick": 100, "thorough": 100}, "no_default_features": True}
 
 
-def l3(sub, step, quick, thorough, shards_thorough=16, gen=GEN_MAIN):
-    return {"gen": gen, "sub": sub, "step": step, "cases": {"quick": quick, "thorough": thorough},
-            "shards": {"quick": 1, "thorough": shards_thorough}}
+def l3(sub, step, quick, thorough, shards_thorough=16, gen=GEN_MAIN, extra=None):
+    d = {"gen": gen, "sub": sub, "step": step, "cases": {"quick": quick, "thorough": thorough},
+         "shards": {"quick": 1, "thorough": shards_thorough}}
+    if extra:
+        d["extra"] = {"quick": extra, "thorough": extra}
+    return d
 
 
 CHECKS = {
@@ -40,7 +46,8 @@ CHECKS = {
     },
     "C03": {
         "packages": ["vchecks", "vgen"],
-        "steps": [vc("c03a", "api", 30000, 1600000), vc("c03-maps", "maps", 20000, 800000), l3("c03b", "l3", 90000, 4800000)],
+        "steps": [vc("c03a", "api", 30000, 1600000), vc("c03-maps", "maps", 20000, 800000), l3("c03b", "l3", 90000, 4800000),
+                  l3("c03-enums", "enums", 1, 1), l3("c03-body", "body", 30000, 1600000, gen=GEN_MAGIC)],
         "assumptions": L1_ASSUME,
     },
     "C04": {
@@ -92,6 +99,27 @@ CHECKS = {
         "packages": ["vchecks"],
         "steps": [vc("c18a", "shapeset", 1, 1, 1)],
         "assumptions": L1_ASSUME,
+    },
+    "C08": {
+        "packages": ["vchecks", "vgen"],
+        "steps": [l3("c08", "partitions", 12000, 480000), l3("c08-forward", "forward", 30000, 1600000, gen=GEN_MAGIC)],
+        "assumptions": L3_ASSUME + ["merging is checked metamorphically (every partition against the single-attribute rendering), forwarding against the input attributes selected by the declaration"],
+    },
+    "C09": {
+        "packages": ["vchecks", "vgen"],
+        "steps": [l3("c09", "enums", 1, 1)],
+        "assumptions": L3_ASSUME,
+    },
+    "C16": {
+        "packages": ["vchecks", "vgen"],
+        "steps": [l3("c16", "magic", 40000, 3200000, gen=GEN_MAGIC)],
+        "assumptions": L3_ASSUME,
+    },
+    "C17": {
+        "packages": ["vchecks", "vgen"],
+        "steps": [l3("c17", "suggestions-on", 40000, 1600000, gen=GEN_SUGG),
+                  l3("c17", "suggestions-off", 20000, 800000, gen=GEN_SUGG_OFF, extra={"feature": "off"})],
+        "assumptions": L3_ASSUME + ["strsim::jaro_winkler is called directly as trusted third-party code; ties between equally similar candidates are accepted either way"],
     },
     "C05": {
         "packages": ["vchecks"],
